@@ -167,6 +167,12 @@ func (st *State) loadKey(kind PtrKind, key string, base, idx *Term, t types.Type
 		if _, isFn := under(t).(*types.Signature); isFn && st.vc.prog != nil && st.vc.prog.pureFields[key] {
 			return &FuncV{Fn: pureField(key), Term: v}
 		}
+		if _, isFn := under(t).(*types.Signature); isFn {
+			// a function value stored earlier in this very execution is recognised again
+			if fv := st.vc.funcFromTerm(v); fv != nil {
+				return fv
+			}
+		}
 		return v
 	}
 	switch u := under(t).(type) {
@@ -281,6 +287,10 @@ func (st *State) toTerm(v Val, t types.Type) *Term {
 			x.Term = Fresh("funcval", IntSort)
 			st.vc.addGlobalFact(Gt(x.Term, IntC(0)))
 		}
+		if st.vc.funcTerms == nil {
+			st.vc.funcTerms = map[*Term]*FuncV{}
+		}
+		st.vc.funcTerms[x.Term] = x
 		return x.Term
 	case nil:
 		return zeroTerm(scalarSort(t))
@@ -309,6 +319,24 @@ func (st *State) havocPrefix(prefix string, why string) {
 		}
 	}
 	st.vc.havocLog = append(st.vc.havocLog, prefix+" ("+why+")")
+}
+
+// havocRow havocs, for every key under prefix, only the row belonging to one array / object (base).
+func (st *State) havocRow(prefix string, base *Term, why string) {
+	for _, name := range st.vc.reg.sorted() {
+		if keyHasPrefix(name, prefix) {
+			ki := st.vc.reg.m[name]
+			if ki.Sort.Kind != SArray {
+				st.heap[name] = Fresh("hv:"+name, ki.Sort)
+				st.touchKey(name)
+				continue
+			}
+			st.heap[name] = Store(st.heapVar(ki), base, Fresh("hvrow:"+name, ki.Sort.Elem))
+			st.touchKey(name)
+			st.vc.noteWrite(st, PHeap, name, base, nil)
+		}
+	}
+	st.vc.havocLog = append(st.vc.havocLog, prefix+"[one array] ("+why+")")
 }
 
 func keyHasPrefix(name, prefix string) bool {
@@ -369,6 +397,16 @@ func mergeVals(c *Term, a, b Val) (Val, bool) {
 		if !ok || x.Sort != y.Sort {
 			if py, ok2 := b.(*PtrV); ok2 && py.Kind == PHeap && py.Idx == nil && py.Key == typeKey(py.Elem) {
 				return Ite(c, x, py.Base), true
+			}
+			if fy, ok2 := b.(*FuncV); ok2 && x.IsConst && x.Sort.Kind == SInt && x.Int.Sign() == 0 {
+				return &FuncChoice{Alts: []FuncAlt{{Not(c), fy}}}, true
+			}
+			if fy, ok2 := b.(*FuncChoice); ok2 && x.IsConst && x.Sort.Kind == SInt && x.Int.Sign() == 0 {
+				n := &FuncChoice{}
+				for _, a := range fy.Alts {
+					n.Alts = append(n.Alts, FuncAlt{And(Not(c), a.Cond), a.F})
+				}
+				return n, true
 			}
 			if py, ok2 := b.(*PtrV); ok2 && py.Kind == PHeap && x.IsConst && x.Sort.Kind == SInt && x.Int.Sign() == 0 {
 				// nil merged with an interior/element pointer: nil is the pointer with base 0
@@ -471,7 +509,44 @@ func mergeVals(c *Term, a, b Val) (Val, bool) {
 				return x, true
 			}
 		}
+		if ok {
+			return &FuncChoice{Alts: []FuncAlt{{c, x}, {Not(c), y}}}, true
+		}
+		if yc, ok := b.(*FuncChoice); ok {
+			n := &FuncChoice{Alts: []FuncAlt{{c, x}}}
+			for _, a := range yc.Alts {
+				n.Alts = append(n.Alts, FuncAlt{And(Not(c), a.Cond), a.F})
+			}
+			return n, true
+		}
+		if yt, ok := b.(*Term); ok && yt.IsConst && yt.Sort.Kind == SInt && yt.Int.Sign() == 0 {
+			// nil function value on the other path
+			return &FuncChoice{Alts: []FuncAlt{{c, x}}}, true
+		}
 		return nil, false
+	case *FuncChoice:
+		n := &FuncChoice{}
+		for _, a := range x.Alts {
+			n.Alts = append(n.Alts, FuncAlt{And(c, a.Cond), a.F})
+		}
+		switch y := b.(type) {
+		case *FuncV:
+			n.Alts = append(n.Alts, FuncAlt{Not(c), y})
+			return n, true
+		case *FuncChoice:
+			for _, a := range y.Alts {
+				n.Alts = append(n.Alts, FuncAlt{And(Not(c), a.Cond), a.F})
+			}
+			return n, true
+		case *Term:
+			if y.IsConst && y.Sort.Kind == SInt && y.Int.Sign() == 0 {
+				return n, true
+			}
+		}
+		return nil, false
+	}
+	if at, ok := a.(*Term); ok && at.IsConst {
+		_ = at
 	}
 	return nil, false
 }
@@ -525,4 +600,40 @@ func sameVal(a, b Val) bool {
 		return true
 	}
 	return false
+}
+
+
+// funcFromTerm maps a loaded function-typed term back to the function value(s) it can denote.
+func (vc *VC) funcFromTerm(t *Term) Val {
+	if f, ok := vc.funcTerms[t]; ok {
+		return f
+	}
+	if t.Op == "ite" && len(t.Args) == 3 {
+		a := vc.funcFromTerm(t.Args[1])
+		b := vc.funcFromTerm(t.Args[2])
+		if a == nil && b == nil {
+			return nil
+		}
+		// alternatives that are not recognised are left out: calling the choice treats "no alternative applies"
+		// as a call of an unknown function (everything havocked) under that condition
+		n := &FuncChoice{}
+		add := func(cond *Term, v Val) {
+			switch x := v.(type) {
+			case *FuncV:
+				n.Alts = append(n.Alts, FuncAlt{cond, x})
+			case *FuncChoice:
+				for _, al := range x.Alts {
+					n.Alts = append(n.Alts, FuncAlt{And(cond, al.Cond), al.F})
+				}
+			}
+		}
+		if a != nil {
+			add(t.Args[0], a)
+		}
+		if b != nil {
+			add(Not(t.Args[0]), b)
+		}
+		return n
+	}
+	return nil
 }
